@@ -133,6 +133,8 @@ def opt_features(o):
         f.add("written:derived_table_joins_a_table_under_a_name_of_the_outer_scope")
     if o.get("where_sub"):
         f.add("written:where_subquery_reads_a_table_under_a_name_of_the_outer_scope")
+    if o.get("target_in_where"):
+        f.add("written:target_also_read_in_a_where_subquery")
     if o.get("paren_source"):
         f.add("written:parenthesised_source_query")
     return f
@@ -224,6 +226,10 @@ def run(chk):
             for f1 in render_col.FORMS1:
                 more.append({"prog": c["prog"], "flow": c["flow"], "opts": {"form1": f1, "form2": rnd.choice(render_col.FORMS2)}, "metadata": False})
         jobs += more
+    # the incremental-load idiom (the target is read in a WHERE subquery as well) for a twentieth of the INSERTs
+    for j in jobs:
+        if j["prog"]["kind"] in ("insert", "insert_cols") and not j["prog"]["branch2"] and rnd.random() < 0.05:
+            j["opts"]["target_in_where"] = True
     jobs = [j for j in jobs if not (j["opts"].get("join") == "cross join")] + [dict(j, opts=dict(j["opts"], join="join")) for j in jobs if j["opts"].get("join") == "cross join"]
     obs = run_jobs(jobs)
     verdicts, keep = decide(chk, jobs, obs, "col")
